@@ -8,4 +8,5 @@ def run(ctx):
     serial.rule_R05_3(ctx)
     bytesacct.rule_writer(ctx, 'R05.4', [('output.c', 'reb_simulation_save_to_stream')], floor=6)
     bytesacct.rule_reader(ctx, 'R05.5')
+    serial.rule_tree_predicate(ctx, 'R05.7')   # the restored simulation rebuilds the tree iff a module needs it
     ctx.not_decided.append('that the persisted set is sufficient for bitwise continuation of every integrator; padding bytes; the continuation itself (runtime)')
